@@ -236,6 +236,47 @@ func (a *algRun) c11Scenario(outDir string, n, t, dealer, victim int, dev deviat
 			}
 		}
 	}
+	// a refusal is not undone by asking again: the operator hands the same operation to the same running machine once
+	// more (a result file got lost, a QR code was misread): what was refused is refused again
+	for i, nd := range c.nodes {
+		if i == dealer {
+			continue
+		}
+		refusedBefore := false
+		for _, m := range c.boardMessages() {
+			if m.SenderAddr == nd.name && m.Event == "event_dkg_response_confirm_canceled_by_error" {
+				refusedBefore = true
+			}
+		}
+		if !refusedBefore {
+			continue
+		}
+		for _, op := range nd.coldLog {
+			if string(op.Type) != "state_dkg_responses_await_confirmations" || op.DKGIdentifier != round {
+				continue
+			}
+			for attempt := 2; attempt <= 3; attempt++ {
+				path, err := nd.air.ProcessOperation(op, true)
+				if err != nil {
+					break
+				}
+				rb, _ := os.ReadFile(path)
+				os.Remove(path)
+				var res types.Operation
+				if json.Unmarshal(rb, &res) != nil {
+					break
+				}
+				a.st.C11Refed++
+				if !strings.Contains(string(res.Event), "canceled_by_error") {
+					a.mon(fmt.Sprintf("C11 refusal_is_stable %s: machine %d refused the deals of the round, but handed the same operation again (attempt %d) it answers %s", tag, i, attempt, res.Event))
+					break
+				}
+			}
+		}
+		if k, have := keyringOf(nd.air, round); have {
+			a.mon(fmt.Sprintf("C11 no_share_stored %s: honest machine %d stored a key share for the round after being asked again (%s)", tag, i, truncate(k, 40)))
+		}
+	}
 	// the algebra of the check, for the deviations whose commitments have known discrete logarithms
 	if len(bcast) > 0 && len(real) > 0 {
 		a.emit(fmt.Sprintf("dealcheck %d %s | %s", victim, strings.Join(bcast, " "), strings.Join(real, " ")), "refuse")
